@@ -282,7 +282,7 @@ def run(tier, seed, replay=None):
                 if "steps" not in o:
                     raise HarnessError(f"fault-free scenario {c['name']} did not run: {str(o)[:500]}")
             sweep = sweep_cases(bases, bobs, tier)
-            rnd = random_cases(rng, 60 if tier == "quick" else 1500)
+            rnd = random_cases(rng, 150 if tier == "quick" else 2500)
             more = sweep + retry_cases(bases, bobs) + rnd
             cases = bases + more
             obs = bobs + run_cases(binary, more, tag="c15_sweep")
